@@ -14,7 +14,7 @@ for k in $(seq 0 $((K-1))); do
       id=${ids[$j]}
       for d in $(ls -d seeded/$id-* | sort -V); do
         n=$(basename $d); extra=""; [ -f $d/SUPERSEDED ] && continue
-        case $n in C09-6) extra="C03";; C04-2) extra="C01";; esac
+        case $n in C09-6) extra="C03";; C09-9) extra="C18";; C04-2) extra="C01";; esac
         for c in $id $extra; do
           r=$(VERIF_REPO=$tmp/repo-$k VERIF_WORK=$tmp/work-$k python3 lib/seedtest.py $PWD/$d/patch.diff $c 2>&1 | head -1)
           ex=$(echo "$r" | sed -n 's/.*exit=\([0-9]*\).*/\1/p'); v=$(echo "$r" | sed -n 's/.*violations=\([0-9]*\).*/\1/p')
